@@ -1197,4 +1197,121 @@ theorem skipValue_in_context (f : Bool) (A B : List Tok) (v : JVal)
       simp only [skipValue, hlt, if_false, hg, n1, n2, n3, n4, n5, n6, false_or, hor, if_true,
         findNumberEnd, hscan, hbytesV]
 
+/-! ### every sub-value occupies a token segment and is followed by a non-number byte -/
+
+/-- The text of `ts` does not start with one of `0-9 - + . e E` (or is empty). -/
+def SafeNext (ts : List Tok) : Prop := ∀ b, (toksBytes ts).head? = some b → isNumberByte b = false
+
+theorem safe_nil : SafeNext [] := by intro b h; simp [toksBytes] at h
+
+theorem safe_cons (t : Tok) (ts : List Tok) (b0 : BitVec 8) (rest : List (BitVec 8))
+    (hb : t.bytes = b0 :: rest) (hn : isNumberByte b0 = false) : SafeNext (t :: ts) := by
+  intro b h
+  simp only [toksBytes, List.flatMap_cons, hb, List.cons_append, List.head?_cons, Option.some.injEq] at h
+  rw [← h]; exact hn
+
+theorem safe_comma (ts : List Tok) : SafeNext (.comma :: ts) := safe_cons _ _ _ _ rfl (by decide)
+theorem safe_rbracket (ts : List Tok) : SafeNext (.rbracket :: ts) := safe_cons _ _ _ _ rfl (by decide)
+theorem safe_rbrace (ts : List Tok) : SafeNext (.rbrace :: ts) := safe_cons _ _ _ _ rfl (by decide)
+
+theorem safe_ws (w : Ws) (ts : List Tok) (h : SafeNext ts) : SafeNext (wsToks w ++ ts) := by
+  cases w with
+  | nil => simpa [wsToks] using h
+  | cons c cs => cases c <;> exact safe_cons _ _ _ _ rfl (by decide)
+
+theorem safe_items (rest : JItems) (ts : List Tok) : SafeNext (rest.toks ++ (Tok.rbracket :: ts)) := by
+  cases rest with
+  | nil => exact safe_rbracket ts
+  | cons ws0 v ws1 r => exact safe_comma _
+
+theorem safe_members (rest : JMembers) (ts : List Tok) : SafeNext (rest.toks ++ (Tok.rbrace :: ts)) := by
+  cases rest with
+  | nil => exact safe_rbrace ts
+  | cons ws0 k ws1 ws2 v ws3 r => exact safe_comma _
+
+theorem safe_items' (rest : JItems) (ts : List Tok) (h : SafeNext ts) : SafeNext (rest.toks ++ ts) := by
+  cases rest with
+  | nil => exact h
+  | cons ws0 v ws1 r => exact safe_comma _
+
+theorem safe_members' (rest : JMembers) (ts : List Tok) (h : SafeNext ts) : SafeNext (rest.toks ++ ts) := by
+  cases rest with
+  | nil => exact h
+  | cons ws0 k ws1 ws2 v ws3 r => exact safe_comma _
+
+/-- The occurrence `o` sits inside `whole`, and whatever safe text follows `whole`, the text
+following the sub-value is safe. -/
+def OccOK (whole : List Tok) (o : Occ) : Prop :=
+  o.1 ++ o.2.1.toks ++ o.2.2 = whole ∧ ∀ outer, SafeNext outer → SafeNext (o.2.2 ++ outer)
+
+theorem OccOK.self (v : JVal) : OccOK v.toks ([], v, []) := ⟨by simp, fun outer h => by simpa using h⟩
+
+theorem OccOK.wrap {part whole pre post : List Tok} {o : Occ} (h : OccOK part o)
+    (hw : pre ++ part ++ post = whole) (hs : ∀ outer, SafeNext outer → SafeNext (post ++ outer)) :
+    OccOK whole (Occ.wrap pre post o) := by
+  refine ⟨?_, ?_⟩
+  · rw [← hw, ← h.1]; simp [Occ.wrap, List.append_assoc]
+  · intro outer ho
+    simp only [Occ.wrap, List.append_assoc]
+    exact h.2 _ (hs outer ho)
+
+mutual
+  theorem val_occs : ∀ (v : JVal) (o : Occ), o ∈ v.occs → OccOK v.toks o
+    | .lit l, o, h => by simp [JVal.occs] at h; subst h; exact OccOK.self _
+    | .num n, o, h => by simp [JVal.occs] at h; subst h; exact OccOK.self _
+    | .str b, o, h => by simp [JVal.occs] at h; subst h; exact OccOK.self _
+    | .arr0 ws, o, h => by simp [JVal.occs] at h; subst h; exact OccOK.self _
+    | .obj0 ws, o, h => by simp [JVal.occs] at h; subst h; exact OccOK.self _
+    | .arr ws0 v ws1 rest, o, h => by
+      simp only [JVal.occs, List.mem_cons, List.mem_append, List.mem_map] at h
+      rcases h with rfl | ⟨o', ho', rfl⟩ | ⟨o', ho', rfl⟩
+      · exact OccOK.self _
+      · exact (val_occs v o' ho').wrap (by simp [JVal.toks, List.append_assoc]) (fun outer _ => by
+          simp only [List.append_assoc]
+          exact safe_ws _ _ (by simpa using safe_items rest outer))
+      · exact (items_occs rest o' ho').wrap (by simp [JVal.toks, List.append_assoc]) (fun outer _ => by
+          simpa using safe_rbracket outer)
+    | .obj ws0 k ws1 ws2 v ws3 rest, o, h => by
+      simp only [JVal.occs, List.mem_cons, List.mem_append, List.mem_map] at h
+      rcases h with rfl | ⟨o', ho', rfl⟩ | ⟨o', ho', rfl⟩
+      · exact OccOK.self _
+      · exact (val_occs v o' ho').wrap (by simp [JVal.toks, List.append_assoc]) (fun outer _ => by
+          simp only [List.append_assoc]
+          exact safe_ws _ _ (by simpa using safe_members rest outer))
+      · exact (members_occs rest o' ho').wrap (by simp [JVal.toks, List.append_assoc]) (fun outer _ => by
+          simpa using safe_rbrace outer)
+  theorem items_occs : ∀ (r : JItems) (o : Occ), o ∈ r.occs → OccOK r.toks o
+    | .nil, o, h => by simp [JItems.occs] at h
+    | .cons ws0 v ws1 rest, o, h => by
+      simp only [JItems.occs, List.mem_append, List.mem_map] at h
+      rcases h with ⟨o', ho', rfl⟩ | ⟨o', ho', rfl⟩
+      · exact (val_occs v o' ho').wrap (by simp [JItems.toks, List.append_assoc]) (fun outer ho => by
+          simp only [List.append_assoc]
+          exact safe_ws _ _ (safe_items' rest outer ho))
+      · exact (items_occs rest o' ho').wrap (by simp [JItems.toks, List.append_assoc]) (fun outer ho => by
+          simpa using ho)
+  theorem members_occs : ∀ (r : JMembers) (o : Occ), o ∈ r.occs → OccOK r.toks o
+    | .nil, o, h => by simp [JMembers.occs] at h
+    | .cons ws0 k ws1 ws2 v ws3 rest, o, h => by
+      simp only [JMembers.occs, List.mem_append, List.mem_map] at h
+      rcases h with ⟨o', ho', rfl⟩ | ⟨o', ho', rfl⟩
+      · exact (val_occs v o' ho').wrap (by simp [JMembers.toks, List.append_assoc]) (fun outer ho => by
+          simp only [List.append_assoc]
+          exact safe_ws _ _ (safe_members' rest outer ho))
+      · exact (members_occs rest o' ho').wrap (by simp [JMembers.toks, List.append_assoc]) (fun outer ho => by
+          simpa using ho)
+end
+
+/-- Every value of a document occupies a token segment of `d.toks` and is followed by text that
+does not start with a number byte. -/
+theorem doc_occs (d : Doc) (o : Occ) (h : o ∈ d.occs) :
+    d.toks = o.1 ++ o.2.1.toks ++ o.2.2 ∧ SafeNext o.2.2 := by
+  simp only [Doc.occs, List.mem_map] at h
+  obtain ⟨o', ho', rfl⟩ := h
+  have := (val_occs d.value o' ho').wrap (pre := wsToks d.ws0) (post := wsToks d.ws1) (whole := d.toks)
+    (by simp [Doc.toks]) (fun outer ho => safe_ws _ _ ho)
+  refine ⟨this.1.symm, ?_⟩
+  have h2 := this.2 [] safe_nil
+  simpa using h2
+
 end SV.JsonSimple
